@@ -118,7 +118,14 @@ def run(rep, tier, seed, replay):
                     visible = lambda p: not any(p.startswith(l + "/") for l, k, _ in nodes if k in ("lc", "ld", "lu", "lf"))
                     want_err = [p for p, k, _d in nodes if k in ("lc", "ld") and visible(p)]
                     miss = [p for p in want_err if p not in errs]
-                    if miss:
+                    # ... and ONLY they: an error item below the root never names a plain entry or a link whose target is a
+                    # file or a directory that is not one of its ancestors (two links may well lead to the same directory)
+                    kinds = {p: k for p, k, _d in nodes}
+                    wrong = [canon(p) for p, d in walklib.err_items(u.f.get("items")) if p is not None and d > 0 and kinds.get(canon(p)) in ("d", "f", "lt", "lf")]
+                    if wrong:
+                        rep.violation("oracle", "reading link targets reports %r as an error although it is %s" % (wrong[0], {"lt": "a link to a directory that is not one of its ancestors", "lf": "a link to a file"}.get(kinds.get(wrong[0]), "a plain entry")),
+                                      u.describe(), impl=u.impl[:300])
+                    elif miss:
                         rep.violation("oracle", "reading link targets does not report the %s link %r as an error" % ("re-entrant or dangling", miss[0]), u.describe(), impl=u.impl[:300])
                     else:
                         rep.stats["ReadTarget reports re-entrant and dangling links as errors"] += 1
